@@ -311,6 +311,40 @@ var reDim = regexp.MustCompile(`(?i)(ntax|nchar)\s*=\s*([0-9]+)`)
 // may hide or fake a declaration), only TAXA / DATA / CHARACTERS blocks, exactly one
 // DATA or CHARACTERS block, and DIMENSIONS commands of the plain form
 // "DIMENSIONS [NTAX=n] [NCHAR=m]". Anything else is left unjudged (counted as ambiguous).
+// nexusTaxLabels reads the names declared by the TAXLABELS command of a TAXA block, under
+// the same restrictions as nexusDims (no comment bracket, known blocks only); ok is false
+// when the text has no such command or more than one
+func nexusTaxLabels(data []byte) (labels []string, ok bool) {
+	s := string(data)
+	if strings.ContainsAny(s, "[]") || strings.ContainsRune(s, 0) {
+		return nil, false
+	}
+	block := ""
+	n := 0
+	for _, cmd := range strings.Split(s, ";") {
+		cmd = strings.Join(strings.Fields(cmd), " ")
+		if len(cmd) >= 6 && strings.EqualFold(cmd[:6], "#NEXUS") {
+			cmd = strings.TrimSpace(cmd[6:])
+		}
+		low := strings.ToLower(cmd)
+		if m := reBegin.FindStringSubmatch(cmd); m != nil {
+			block = strings.ToLower(m[1])
+			continue
+		}
+		if low == "end" || low == "endblock" {
+			block = ""
+			continue
+		}
+		if block == "taxa" && (low == "taxlabels" || strings.HasPrefix(low, "taxlabels ")) {
+			n++
+			labels = strings.Fields(cmd)[1:]
+		} else if strings.Contains(low, "taxlabels") {
+			return nil, false
+		}
+	}
+	return labels, n == 1
+}
+
 func nexusDims(data []byte) (ntax, nchar int64, okTax, okChar bool) {
 	s := string(data)
 	if strings.ContainsAny(s, "[]") || strings.ContainsRune(s, 0) {
@@ -566,6 +600,33 @@ func checkParse(c pcase) (o pbt.Outcome, err error) {
 		if !okC || !okT {
 			o.Ambiguous++
 		}
+		// a TAXLABELS command declares the taxa: the rows must be exactly those (the
+		// duplicate-dropping policies and renamed duplicates aside)
+		if labels, ok := nexusTaxLabels(c.Data); ok && ignoreOf(c) == align.IGNORE_NONE {
+			declared := map[string]bool{}
+			dup := false
+			for _, l := range labels {
+				if declared[l] {
+					dup = true
+				}
+				declared[l] = true
+			}
+			if !dup {
+				have := map[string]bool{}
+				for i := 0; i < al.NbSequences(); i++ {
+					name, _ := al.GetSequenceNameById(i)
+					have[name] = true
+					if !declared[name] {
+						return o, fmt.Errorf("nexus: row %q is not among the declared TAXLABELS %v", name, labels)
+					}
+				}
+				for l := range declared {
+					if !have[l] {
+						return o, fmt.Errorf("nexus: declared taxon %q has no row (TAXLABELS %v, %d rows)", l, labels, al.NbSequences())
+					}
+				}
+			}
+		}
 	}
 	o.Class("%s: ok", c.Target)
 	if len(out.aligns) > 1 {
@@ -660,8 +721,13 @@ func twoByteRune(t *rapid.T) rune {
 
 var nameDict = []string{"7", "0001", "x_0001", "end", "END", "matrix", "data", "gap", "clustal", "CLUSTAL", "stockholm", "taxa", "begin", "a.b|c", "tenletters", "elevenchars"}
 
+// collisionPool: names that meet the suffix the duplicate-name policy appends (x, x_0001, ...)
+var collisionPool = []string{"a", "a_0001", "a_0002", "a", "b", "b_0001"}
+
 func genName(t *rapid.T, i int) string {
-	switch rapid.IntRange(0, 5).Draw(t, "namekind") {
+	switch rapid.IntRange(0, 6).Draw(t, "namekind") {
+	case 6:
+		return collisionPool[rapid.IntRange(0, len(collisionPool)-1).Draw(t, "pool")]
 	case 0:
 		return nameDict[rapid.IntRange(0, len(nameDict)-1).Draw(t, "dict")] + fmt.Sprint(i)
 	case 1:
@@ -999,7 +1065,7 @@ var hostile = []string{
 
 // mutate applies one mutation; returns the new data and the kind
 func mutate(t *rapid.T, d []byte, other []byte) ([]byte, string) {
-	kind := rapid.SampledFrom([]string{"truncate", "truncate", "del-line", "dup-line", "swap-lines", "flip-byte", "ins-byte", "del-byte", "token", "token", "token", "splice", "header-count", "del-range", "crlf", "strip-final-newline"}).Draw(t, "mutation")
+	kind := rapid.SampledFrom([]string{"empty-command", "truncate", "truncate", "del-line", "dup-line", "swap-lines", "flip-byte", "ins-byte", "del-byte", "token", "token", "token", "splice", "header-count", "del-range", "crlf", "strip-final-newline"}).Draw(t, "mutation")
 	n := len(d)
 	pos := func(label string) int {
 		if n == 0 {
@@ -1088,6 +1154,15 @@ func mutate(t *rapid.T, d []byte, other []byte) ([]byte, string) {
 		}
 		v += int64(rapid.SampledFrom([]int{-1, 1, 2, -2}).Draw(t, "delta"))
 		return append(append(append([]byte{}, d[:loc[0]]...), []byte(strconv.FormatInt(v, 10))...), d[loc[1]:]...), kind
+	case "empty-command":
+		// "KEYWORD args ;" -> "KEYWORD;" for one command of the text (Nexus), or the content of
+		// one line after its first word (other formats)
+		locs := reCommand.FindAllSubmatchIndex(d, -1)
+		if len(locs) == 0 {
+			return d, kind
+		}
+		loc := locs[rapid.IntRange(0, len(locs)-1).Draw(t, "command")]
+		return append(append(append([]byte{}, d[:loc[3]]...), ';'), d[loc[1]:]...), kind
 	case "crlf":
 		return bytes.ReplaceAll(d, []byte("\n"), []byte("\r\n")), kind
 	case "strip-final-newline":
@@ -1095,6 +1170,8 @@ func mutate(t *rapid.T, d []byte, other []byte) ([]byte, string) {
 	}
 	return d, kind
 }
+
+var reCommand = regexp.MustCompile(`(?i)\b(taxlabels|dimensions|format|matrix|begin [a-z]+)\b[^;]*;`)
 
 var families = []string{"fasta", "phylip", "nexus", "clustal", "stockholm", "partition"}
 
